@@ -103,3 +103,14 @@ char *mlog_get_line(int n)
 
 	return NULL;
 }
+
+#ifdef LIBRFN_VERIF
+/* Verification hook (compiled only with -DLIBRFN_VERIF; see /verif): place
+ * the message counter anywhere, e.g. just below its fold point, which
+ * would otherwise take 2^31 calls to reach.
+ */
+void mlog_verif_set_count(unsigned int head)
+{
+	log.head = head;
+}
+#endif
